@@ -8,6 +8,7 @@ CONSTANTS
   KindSet = {"exact", "corrupt", "truncated", "abort"}
   ROs = {FALSE, TRUE}
   ExtNames = {"a"}
+  MaxFiles = {0, 2, 1000000}
   WhatIf = "none"
 SPECIFICATION Spec
 INVARIANT NoViolation
